@@ -455,6 +455,16 @@ func streamNoPanic(c *ctx) {
 		"a11bffffffffffffffff00", "a13bffffffffffffffff00", "a1fb000000000000000000", "8440a0f6" + "5a00ffffff", "8440a0f6" + "5affffffff00"} {
 		inputs = append(inputs, key.HexBytesify(h))
 	}
+	// nested map values whose keys are anything CBOR allows (null, booleans, byte strings, floats, bignums, tagged and
+	// huge integers), under every label an accessor might be asked for, bare and inside the buckets of a message
+	for _, lab := range []string{"01", "03", "04", "05", "06", "07", "1821", "20", "6178"} {
+		for _, k := range []string{"f6", "f7", "f5", "40", "4101", "fb3ff0000000000000", "f97e00", "c24101", "c34100", "d86401", "1bffffffffffffffff", "3bffffffffffffffff", "1a80000000", "60", "6161"} {
+			nested := "a1" + lab + "a1" + k + "01"
+			inputs = append(inputs, key.HexBytesify(nested), key.HexBytesify("a1"+lab+"a201"+"a1"+k+"f6"+k[:0]+"0203"),
+				key.HexBytesify("8440"+nested+"f6f6"), key.HexBytesify("84"+fmt.Sprintf("%02x", 0x40+len(nested)/2)+nested+"a0f6f6"), key.HexBytesify("8340"+nested+"40"),
+				key.HexBytesify("8540"+nested+"404080"), key.HexBytesify("81"+nested))
+		}
+	}
 	for i := 0; i < c.n(150, 3000); i++ {
 		inputs = append(inputs, genItem(c, 3, false).enc(nil))
 		inputs = append(inputs, c.r.bytes(c.r.intn(40)))
